@@ -37,6 +37,7 @@ def check_align_term(run, db):
             continue
         n += 1
         probs = []
+        unrec = []
         good = 0
         for s in S:
             r = s.ret
@@ -45,7 +46,7 @@ def check_align_term(run, db):
             # strip the outer "+ nothing": the returned value is the cursor after fence and alignment bumps
             m = re.match(r'^\((.+) \+ align_offset\((.+),\$alignment\)\)$', r) or re.match(r'^\(align_offset\((.+),\$alignment\) \+ (.+)\)$', r)
             if not m:
-                probs.append('returns %s, which is not <aligned base> + align_offset(<base>, alignment)' % r[:140])
+                unrec.append(r[:140])
                 continue
             a, b = m.group(1), m.group(2)
             if a != b:
@@ -55,6 +56,9 @@ def check_align_term(run, db):
         inst = '%s [%s]' % (f.display, db.config)
         if probs:
             run.violation('R-ALIGN.term', inst, f.loc, '; '.join(sorted(set(probs))[:2]), site={'function': c01.site_name(f), 'role': 'offset of the cursor that is bumped'})
+        elif unrec:
+            # a shape the rule does not know is never reported as a violation
+            run.broke('%s returns %s: not of the recognised form <aligned base> + align_offset(<base>, alignment)' % (f.display, unrec[0]))
         elif good == 0:
             run.broke('no returning path of %s yields memory' % f.display)
         else:
